@@ -376,7 +376,7 @@ def build(tier, repo):
                   "the step only shrinks in between; cp's F_e maps refusals to (None, None)",
                   "backtracks into the domain instead of failing")
     _check_domain(w, r5)
-    r5.require(4)
+    r5.require(3)
     return chk
 
 
